@@ -38,6 +38,14 @@ _REC_REALS_TABLE = "        elif form in (\"double\", \"single\"):\n            
 _MAT_BYTES = "            frm = self._rfrm\n            frmu = self._rfrmu\n            bytes_per = self._fbytes\n        else:\n            frm = self._endian + \"f8\"\n            frmu = self._endian + \"%dd\"\n            bytes_per = 8\n\n        matrix = np.zeros"
 _MAT_CALCSIZE = "            frm = self._rfrm\n            frmu = self._rfrmu\n        else:\n            frm = self._endian + \"f8\"\n            frmu = self._endian + \"%dd\"\n        bytes_per = struct.calcsize(frmu % @N@)\n\n        matrix = np.zeros"
 
+# ------------------------------------------------------------------ pass 5: where the candidates of a matrix read come from (typestate of directory entries)
+_MATS_FILTER = "            dblist = [sns for sns in matrices if sns.name == name]\n"
+_MATS_HEAD = "        mats = {}\n        for name in unique_names:\n" + _MATS_FILTER
+_MATS_KIND_LOOP = ("            dblist = []\n            for cand in self.dblist:\n                if cand.dbtype == 1 and cand.name == name:\n"
+                   "                    dblist.append(cand)\n")
+_MATS_BYNAME = ("        mats = {}\n        byname = {nm: [sns for sns in matrices if sns.name == nm] for nm in unique_names}\n"
+                "        for name in unique_names:\n            dblist = byname[name]\n")
+
 RECIPES = [
     # ------------------------------------------------------------------ break: decode sizes (R2)
     ("C11", "break", ["C11-R2"], OP2, "        hbytes = 3 * self._ibytes\n", "        hbytes = 12\n", "DYNAMICS header read with a fixed 12 bytes (wrong with 64-bit keys)"),
@@ -300,4 +308,14 @@ RECIPES += [
     ("C11", "break", ["C11-R1"], OP2, _REC_REALS, _REC_REALS_TABLE.replace("@NB@", "8"), "rdop2record (table keyed by form): 'single' listed with 8 bytes (numpy f8 against struct f)"),
     ("C11", "neutral", [], OP2, _MAT_BYTES, _MAT_CALCSIZE.replace("@N@", "1"), "rdop2matrix: bytes per value = calcsize of the selected struct format"),
     ("C11", "break", ["C11-R1"], OP2, _MAT_BYTES, _MAT_CALCSIZE.replace("@N@", "3"), "rdop2matrix (calcsize): bytes per value = size of three values"),
+    # ------------------------------------------------------------------ pass 5: the candidates of rdop2mats are matrix entries
+    ("C11", "break", ["C11-R5"], OP2, _MATS_FILTER, "            dblist = self.dbdct[name]\n", "rdop2mats: occurrences of a name taken from dbdct (tables of the same name included)"),
+    ("C11", "break", ["C11-R5"], OP2, _MATS_FILTER, "            dblist = [sns for sns in self.dblist if sns.name == name]\n", "rdop2mats: occurrences filtered by name only over the whole directory list"),
+    ("C11", "break", ["C11-R5"], OP2, _MATS_FILTER, "            dblist = self.dbdct.get(name, [])\n", "rdop2mats: occurrences from dbdct.get(name, [])"),
+    ("C11", "break", ["C11-R5"], OP2, _MATS_FILTER, _MATS_KIND_LOOP.replace("cand.dbtype == 1 and ", ""), "rdop2mats: occurrences collected in a loop over the whole directory list by name only"),
+    ("C11", "neutral", [], OP2, _MATS_FILTER, _MATS_KIND_LOOP, "rdop2mats: occurrences collected in a loop over the whole directory list by kind and name"),
+    ("C11", "neutral", [], OP2, _MATS_FILTER, "            dblist = [sns for sns in self.dblist if sns.name == name and sns.dbtype > 0]\n", "rdop2mats: occurrences filtered by name and kind (> 0) over the whole directory list"),
+    ("C11", "neutral", [], OP2, _MATS_FILTER, "            dblist = [sns for sns in self.dblist if sns.name == name]\n            dblist = [sns for sns in dblist if sns.dbtype != 0]\n",
+     "rdop2mats: occurrences by name over the whole directory list, then filtered by kind (!= 0)"),
+    ("C11", "neutral", [], OP2, _MATS_HEAD, _MATS_BYNAME, "rdop2mats: occurrences per name from a dict comprehension over the matrix-only list"),
 ]
